@@ -320,8 +320,14 @@ var entryPoints = []entryPoint{
 		return api.Validate(bytes.NewReader(b), c)
 	}},
 	{"Optimize", func(b []byte, c *model.Configuration) error { return api.Optimize(bytes.NewReader(b), io.Discard, c) }},
-	{"Bookmarks", func(b []byte, c *model.Configuration) error { _, err := api.Bookmarks(bytes.NewReader(b), c); return err }},
-	{"Attachments", func(b []byte, c *model.Configuration) error { _, err := api.Attachments(bytes.NewReader(b), c); return err }},
+	{"Bookmarks", func(b []byte, c *model.Configuration) error {
+		_, err := api.Bookmarks(bytes.NewReader(b), c)
+		return err
+	}},
+	{"Attachments", func(b []byte, c *model.Configuration) error {
+		_, err := api.Attachments(bytes.NewReader(b), c)
+		return err
+	}},
 	{"Annotations", func(b []byte, c *model.Configuration) error {
 		_, err := api.Annotations(bytes.NewReader(b), nil, c)
 		return err
